@@ -210,7 +210,8 @@ def _judge(c, co, info):
         info["note"] = "inputs do not satisfy the precondition concretely (tolerance) - not a confirmed input"
         return False
     if co.raised is not None:
-        if co.raised.startswith(("ZeroDivisionError", "OverflowError", "FloatingPointError")):
+        if not co.raised.startswith(("IndexError", "KeyError", "TypeError", "AttributeError", "NameError",
+                                     "UnboundLocalError", "AssertionError")):
             info["note"] = "real function left the defined domain on these inputs (A2): " + co.raised
             return False
         if not getattr(c, "may_raise", False):
@@ -259,17 +260,27 @@ def random_inputs(c, cfg, rnd):
     return out
 
 
-def refute(pid, key, label, obname, repo_src, replay_dir, seed=0):
+_rr_cache = {}
+
+
+def _verify_cached(c, label, cfg, repo_src, flt, tag):
+    k = (c.key, label, tag, repo_src)
+    if k not in _rr_cache:
+        reset_fresh()
+        _rr_cache[k] = verify_contract(c, label, cfg, repo_src, snapshot_root=c.snapshot(cfg), ensure_filter=flt)
+    return _rr_cache[k]
+
+
+def refute(pid, key, label, obname, repo_src, replay_dir, seed=0, first_verdict=None):
     """re-run the unit in-process, find a model for the named obligation, replay it on the real code.
     returns dict describing what happened (written to the replay file by the caller)"""
     import random
     reset_fresh()
     c = REGISTRY[key]
-    cfgs = dict(c.configs_for(pid) if hasattr(c, "configs_for") else c.configs())
+    cfgs = dict(c.configs())
     cfg = cfgs[label]
-    snap = c.snapshot(cfg) if hasattr(c, "snapshot") else None
     flt = c.ensure_filter(pid) if hasattr(c, "ensure_filter") else None
-    rr = verify_contract(c, label, cfg, repo_src, snapshot_root=snap, ensure_filter=flt)
+    rr = _verify_cached(c, label, cfg, repo_src, flt, (pid, None))
     ob = next((o for o in rr.obligations if o.name == obname), None)
     info = {"property": pid, "function": key, "config": label, "obligation": obname, "confirmed": False}
     info["config_values"] = {k: repr(v) for k, v in cfg.items()}
@@ -287,6 +298,8 @@ def refute(pid, key, label, obname, repo_src, replay_dir, seed=0):
             ranges.append(z3.And(v > lo, v < hi) if z3.is_real(v) else z3.And(v >= int(lo), v <= int(hi)))
     extra_sets = [ranges + [v != 0 for v in reals], [], [v > 0 for v in reals]]
     t_start = time.time()
+    if first_verdict == "unknown" and getattr(c, "sizes", ()):
+        extra_sets = []       # the solver could not decide the unbounded query: go straight to the bounded instances
     for extra in extra_sets:
         if time.time() - t_start > 40:
             break
@@ -321,9 +334,8 @@ def refute(pid, key, label, obname, repo_src, replay_dir, seed=0):
         if time.time() - t_start > 90:
             break
         cfg2 = dict(cfg, _size=size)
-        reset_fresh()
         try:
-            rr2 = verify_contract(c, label, cfg2, repo_src, snapshot_root=c.snapshot(cfg2), ensure_filter=flt)
+            rr2 = _verify_cached(c, label, cfg2, repo_src, flt, (pid, size))
         except Exception:
             continue
         if rr2.unsupported:
@@ -334,16 +346,24 @@ def refute(pid, key, label, obname, repo_src, replay_dir, seed=0):
             v = rr2.ctx.inputs.get(name)
             if v is not None and is_sym(v) and lo < hi and z3.is_real(v):
                 ranges2.append(z3.And(v > lo, v < hi))
-        for ob2 in rr2.obligations:
-            if ob2.kind not in ("post", "bounds", "pre"):
-                continue
+        base = obname.split("/", 1)[1].split("@")[0].split("#")[0] if "/" in obname else obname
+        cands = [o for o in rr2.obligations if o.kind in ("post", "bounds", "pre")]
+        # the same clause first, then any other clause of the bounded instance
+        cands.sort(key=lambda o: 0 if base in o.name else 1)
+        for ob2 in cands:
+            if time.time() - t_start > 150:
+                break
             for extra in (ranges2, []):
+                # quantified axioms/hypotheses are dropped here: the replay on the real code is the judge of the model
+                from .execute import _has_quantifier
                 sv = z3.Solver()
-                sv.set("timeout", 8000)
+                sv.set("timeout", 15000)
                 for a in ax2:
-                    sv.add(a)
+                    if not _has_quantifier(a):
+                        sv.add(a)
                 for h in ob2.hyps:
-                    sv.add(h)
+                    if not _has_quantifier(h):
+                        sv.add(h)
                 for e in extra:
                     sv.add(e)
                 sv.add(z3.Not(ob2.goal))
@@ -417,7 +437,7 @@ def replay_file(path, repo_src):
         info = json.load(f)
     c = REGISTRY[info["function"]]
     pid = info["property"]
-    cfgs = dict(c.configs_for(pid) if hasattr(c, "configs_for") else c.configs())
+    cfgs = dict(c.configs())
     cfg = cfgs[info["config"]]
     if info.get("bounded_size") is not None:
         cfg = dict(cfg, _size=info["bounded_size"])
